@@ -117,14 +117,78 @@ def mutate_str(rng, s, alphabet=":-./ \nA1z"):
     return "".join(s)
 
 
+READONLY = ("dump_for_tree", "getitem", "dumps")
+
+
+def apply_call(obj, add, op):
+    """one call of a history: `add` (default) or a read-only operation driven between the adds"""
+    call = op.get("call", "add")
+    if call == "dump_for_tree":
+        import io
+        out = io.StringIO()
+        obj.dump_for_tree(out, op["variant"], op["arch"], op["basepath"])
+        return out.getvalue()
+    if call == "getitem":
+        return enc(obj[op["variant"]])
+    if call == "dumps":
+        return obj.dumps()
+    add(obj, op)
+    return None
+
+
 def run_trace(obj, mapping_of, add, ops):
-    """apply `ops` one by one to the real object; after each: outcome class and the whole mapping"""
+    """apply `ops` one by one to the real object; after each: outcome and a deep snapshot of the WHOLE mapping"""
     steps = []
     for op in ops:
         try:
-            add(obj, op)
-            out = {"ok": None}
+            out = {"ok": apply_call(obj, add, op)}
         except Exception as e:  # noqa
             out = {"err": type(e).__name__}
         steps.append({"out": out, "state": enc(mapping_of(obj))})
     return steps
+
+
+def interleave_readonly(rng, ops, kind, bases):
+    """insert read-only calls (exports with matching / non-matching / textually-prefixing bases, item reads, dumps)
+    between the adds of a history"""
+    out, seen = [], []
+    for op in ops:
+        out.append(op)
+        seen.append(op)
+        if rng.random() < 0.22:
+            ref = rng.choice(seen)
+            r = rng.random()
+            if kind == "extra_files" and r < 0.7:
+                out.append(tree_call(rng, ref, bases))
+            elif r < 0.9:
+                out.append({"call": "getitem", "variant": ref["variant"] if rng.random() < 0.85 else "Nope", "why": "getitem"})
+            else:
+                out.append({"call": "dumps", "why": "dumps"})
+    if kind == "extra_files" and seen and rng.random() < 0.5:
+        ref = rng.choice(seen)
+        out.append(tree_call(rng, ref, bases, force="match"))            # an export whose base really strips …
+        out.append(tree_call(rng, ref, bases, force="shorter"))          # … then another one with a different base
+        if rng.random() < 0.5:
+            out.append({"call": "dumps", "why": "dumps"})
+    return out
+
+
+def tree_call(rng, ref, bases, force=None):
+    path = ref.get("path") or ""
+    dirs = path.split("/")[:-1]
+    r = rng.random()
+    if force == "match" or (force is None and r < 0.45):
+        n = len(dirs) if force == "match" else rng.randint(0, len(dirs))
+        base = "/".join(dirs[:n]) + rng.choice(["", "/", "//"])
+        why = "tree:prefix"
+    elif force == "shorter":
+        base = "/".join(dirs[:max(0, len(dirs) - 1)])
+        why = "tree:shorter"
+    elif r < 0.65 and dirs:
+        base = "/".join(dirs)[:-1]                                          # only a textual prefix
+        why = "tree:textual"
+    else:
+        base = rng.choice(bases)
+        why = "tree:pool"
+    return {"call": "dump_for_tree", "variant": ref["variant"] if rng.random() < 0.9 else "Nope",
+            "arch": ref["arch"] if rng.random() < 0.9 else "s390x", "basepath": base, "why": why}
